@@ -31,6 +31,12 @@ type OpCtx struct {
 	Loader func(string) (json.RawMessage, error)
 	// LoaderTags records which installed package-level loader function served each request.
 	LoaderTags []string
+	// Shadow serves the package-level loader while an operation that injected its OWN loader runs:
+	// it stands for the file system and network behind the injected loader (the fault-free world).
+	// A library that consults the package-level loader although the caller supplied one sees the
+	// documents its caller's loader refused. ShadowReqs counts such requests.
+	Shadow     func(string) (json.RawMessage, error)
+	ShadowReqs int
 
 	arrivals map[string]int
 	noYield  int
